@@ -331,9 +331,9 @@ func (r *Report) writeEvidence(viol int) {
 				"semantics of cosmossdk.io/collections, x/bank, x/distribution and SDK message atomicity (dependency calls are atoms)",
 			},
 			"analysed": map[string]any{
-				"repo_dir":             r.W.RepoDir,
-				"packages_in_closure":  len(r.W.All),
-				"repository_packages":  pk,
+				"repo_dir":              r.W.RepoDir,
+				"packages_in_closure":   len(r.W.All),
+				"repository_packages":   pk,
 				"functions_with_bodies": len(r.W.Funcs),
 			},
 			"exhaustive": true,
